@@ -1546,3 +1546,168 @@ Proof.
     apply in_map_iff in Hrow. destruct Hrow as (d & <- & _). apply in_map_iff in Hin. destruct Hin as (c & <- & _).
     reflexivity.
 Qed.
+
+(* ---------------------------------------------------------------- constant edits cost >= 0 *)
+Lemma leaf_match_cost_nonneg : forall x y, 0 <= leaf_match_cost x y.
+Proof.
+  intros x y. unfold leaf_match_cost. pose proof (lev_nonneg (ltext x) (ltext y)).
+  destruct (leaf_zero_cost_adjusted && (lev (ltext x) (ltext y) =? 0) && negb (py_eqb x y)); lia.
+Qed.
+
+Lemma const_of_nonneg : forall a b c, const_of a b = Some c -> 0 <= c.
+Proof.
+  intros a b c H. destruct a as [x|ale alsl cs|ake k v|amk cs|cs]; cbn [const_of] in H; try discriminate.
+  - unfold leaf_script in H. pose proof (replace_cost_pos (Leaf x) b) as Rp.
+    destruct (lk x); destruct b as [y| | | |]; try (injection H as <-; lia);
+      try (destruct (lk y); injection H as <-; try lia; apply leaf_match_cost_nonneg);
+      try (injection H as <-; apply leaf_match_cost_nonneg).
+    destruct (lk y); try (injection H as <-; apply leaf_match_cost_nonneg).
+    destruct (str_eqb (ltext x) (ltext y)); [injection H as <-; lia|].
+    destruct (Nat.eqb (length (ltext x)) 1 && Nat.eqb (length (ltext y)) 1); [injection H as <-; lia|].
+    destruct (str_script (ltext x) (ltext y)). discriminate.
+  - pose proof (replace_cost_pos (Lst ale alsl cs) b).
+    destruct (list_dispatch (Lst ale alsl cs) b); try discriminate; injection H as <-; lia.
+  - destruct b as [y| |ake' k' v'| |]; try discriminate.
+    destruct (ake || node_eqb k k'); [discriminate|]. injection H as <-.
+    pose proof (replace_cost_pos (Kvp ake k v) (Kvp ake' k' v')). lia.
+Qed.
+
+(* ---------------------------------------------------------------- facts about the dispatch *)
+Lemma dispatch_penalty : forall ale alsl cs b pen, list_dispatch (Lst ale alsl cs) b = LEditDist pen ->
+  exists ale' alsl' ds, b = Lst ale' alsl' ds /\ pen = (if all_leaves cs && all_leaves ds then 0 else 1).
+Proof.
+  intros ale alsl cs b pen H. destruct b as [y|ale' alsl' ds|? ? ?|? ?|?]; cbn [list_dispatch] in H;
+    unfold list_dispatch_gen in H; try discriminate.
+  exists ale', alsl', ds. split; [reflexivity|].
+  destruct (children_eqb cs ds); [discriminate|].
+  destruct (negb ale || (zlen cs =? zlen ds) && (negb alsl || (zlen cs =? 1))); [discriminate|].
+  injection H as <-. reflexivity.
+Qed.
+
+Lemma dispatch_fixed : forall ale alsl cs b, list_dispatch (Lst ale alsl cs) b = LFixed ->
+  exists ale' alsl' ds, b = Lst ale' alsl' ds.
+Proof.
+  intros ale alsl cs b H. destruct b as [y|ale' alsl' ds|? ? ?|? ?|?]; cbn [list_dispatch] in H;
+    unfold list_dispatch_gen in H; try discriminate. eauto.
+Qed.
+
+(* a string edit that can still be tightened is between two strings that are not both empty *)
+Lemma leaf_pair_pos : forall x y s, initU (Leaf x) (Leaf y) = Some s -> ~ zdefinitive (bndU s) ->
+  0 < leaf_size x + leaf_size y.
+Proof.
+  intros x y s H N. cbn [initU] in H. destruct (const_of (Leaf x) (Leaf y)) as [c|] eqn:Ec.
+  - injection H as <-. exfalso. apply N. reflexivity.
+  - destruct (lk x) eqn:Kx; try discriminate. destruct (lk y) eqn:Ky; try discriminate.
+    cbn [const_of] in Ec. unfold leaf_script in Ec. rewrite Kx, Ky in Ec.
+    destruct (str_eqb (ltext x) (ltext y)) eqn:Es; [discriminate|].
+    unfold leaf_size. rewrite Kx, Ky. unfold zlen.
+    destruct (ltext x) as [|cx tx], (ltext y) as [|cy ty]; cbn [length]; try lia. discriminate.
+Qed.
+
+Lemma all_leaves_nth : forall cs i, all_leaves cs = true -> (i < length cs)%nat -> exists x, nth i cs dummy = Leaf x.
+Proof.
+  intros cs i H Hi. unfold all_leaves in H. rewrite forallb_forall in H.
+  specialize (H (nth i cs dummy) (nth_In cs dummy Hi)). destruct (nth i cs dummy); try discriminate. eauto.
+Qed.
+
+Lemma all_some_l_nth : forall {A} (xs : list (option A)) l i y, all_some_l xs = Some l -> nth_error l i = Some y ->
+  nth_error xs i = Some (Some y).
+Proof.
+  intros A xs l i y H. apply all_some_l_spec in H. revert i. induction H as [|x z xs l Hx _ IH]; intros i Hi.
+  - destruct i; discriminate.
+  - destruct i as [|i]; cbn [nth_error] in *; [congruence|apply IH; exact Hi].
+Qed.
+
+Lemma all_some_l_length : forall {A} (xs : list (option A)) l, all_some_l xs = Some l -> length l = length xs.
+Proof. intros A xs l H. apply all_some_l_spec in H. symmetry. apply (Forall2_length' _ _ _ H). Qed.
+
+Lemma nth_error_map_seq : forall {A} (f : nat -> A) k i y, nth_error (map f (seq 0 k)) i = Some y -> (i < k)%nat /\ y = f i.
+Proof.
+  intros A f k i y H. rewrite nth_error_map in H. destruct (nth_error (seq 0 k) i) as [j|] eqn:E; [|discriminate].
+  injection H as <-. assert (Hi : (i < k)%nat).
+  { assert (nth_error (seq 0 k) i <> None) by congruence. apply nth_error_Some in H. rewrite seq_length in H. exact H. }
+  rewrite (nth_error_seq k 0 i Hi) in E. injection E as <-. auto.
+Qed.
+
+(* the children matrix of an EditDistance built by initU: where each entry comes from *)
+Lemma ed_kids_entry : forall cs ds p nr nc ks r c x,
+  all_some_l (map (fun r => all_some_l (map (fun c => match mget (map (fun c => map (fun d => initU c d) ds) cs) (p + c) (p + r) with
+                                                         | Some (Some s) => Some s | _ => None end) (seq 0 nc))) (seq 0 nr)) = Some ks ->
+  nth_error (nth r ks []) c = Some x ->
+  (r < nr)%nat /\ (c < nc)%nat /\
+  exists c0 d0, nth_error cs (p + c) = Some c0 /\ nth_error ds (p + r) = Some d0 /\ initU c0 d0 = Some x.
+Proof.
+  intros cs ds p nr nc ks r c x Hk Hx.
+  assert (Hr : (r < length ks)%nat).
+  { destruct (Nat.lt_ge_cases r (length ks)) as [L|L]; [exact L|]. rewrite nth_overflow in Hx by exact L. destruct c; discriminate. }
+  destruct (nth_error ks r) as [row|] eqn:Er; [|apply nth_error_None in Er; lia].
+  rewrite (nth_nth_error ks r row [] Er) in Hx.
+  pose proof (all_some_l_nth _ _ _ _ Hk Er) as H1. apply nth_error_map_seq in H1. destruct H1 as [Lr H1].
+  symmetry in H1. pose proof (all_some_l_nth _ _ _ _ H1 Hx) as H2. apply nth_error_map_seq in H2. destruct H2 as [Lc H2].
+  split; [exact Lr|]. split; [exact Lc|].
+  destruct (mget _ (p + c) (p + r)) as [[s'|]|] eqn:Em; try discriminate. injection H2 as ->.
+  destruct (mget_init_matrix _ _ _ _ _ Em) as (c0 & d0 & E1 & E2 & E3). exists c0, d0. auto.
+Qed.
+
+Lemma rcost_nonneg : forall pen cs, 0 <= pen -> Forall (fun x => 0 <= x) (map (fun c => remove_cost c pen) cs).
+Proof.
+  intros pen cs Hp. apply Forall_forall. intros x Hx. apply in_map_iff in Hx. destruct Hx as (c & <- & _).
+  rewrite remove_cost_eq. pose proof (size_nonneg c). lia.
+Qed.
+
+Lemma icost_nonneg : forall pen ds, 0 <= pen -> Forall (fun x => 0 <= x) (map (fun d => insert_cost d pen) ds).
+Proof.
+  intros pen ds Hp. apply Forall_forall. intros x Hx. apply in_map_iff in Hx. destruct Hx as (c & <- & _).
+  rewrite insert_cost_eq. pose proof (size_nonneg c). lia.
+Qed.
+
+Definition Pgood (a : tree) : Prop := forall b s, initU a b = Some s -> Good s.
+
+Lemma good_list_ed : forall ale alsl cs b pen s, Forall Pgood cs ->
+  list_dispatch (Lst ale alsl cs) b = LEditDist pen ->
+  (let ds := match b with Lst _ _ ds => ds | _ => [] end in
+   let M := map (fun c => map (fun d => initU c d) ds) cs in
+   let '(p, q) := trim node_eqb cs ds in
+   let nc := length (middle p q cs) in
+   let nr := length (middle p q ds) in
+   let kids := map (fun r => all_some_l (map (fun c => match mget M (p + c) (p + r) with
+                                                       | Some (Some s) => Some s | _ => None end)
+                                             (seq 0 nc))) (seq 0 nr) in
+   match all_some_l kids with
+   | Some ks => Some (SED (ed_init (map (fun c => remove_cost c pen) cs) (map (fun d => insert_cost d pen) ds) p q ks))
+   | None => None
+   end) = Some s -> Good s.
+Proof.
+  intros ale alsl cs b pen s IH Ed H.
+  destruct (dispatch_penalty _ _ _ _ _ Ed) as (ale' & alsl' & ds & -> & Epen). cbn zeta in H.
+  destruct (trim node_eqb cs ds) as [p q] eqn:Et.
+  destruct (trim_bounds node_eqb cs ds p q Et) as (_ & _ & B1 & B2).
+  destruct (all_some_l _) as [ks|] eqn:Ek; [|discriminate]. injection H as <-.
+  assert (Hpen : 0 <= pen) by (rewrite Epen; destruct (all_leaves cs && all_leaves ds); lia).
+  assert (Lc : length (middle p q cs) = (length cs - p - q)%nat) by (apply middle_length; exact B1).
+  assert (Lr : length (middle p q ds) = (length ds - p - q)%nat) by (apply middle_length; exact B2).
+  apply good_ed; try (rewrite map_length; assumption); try (apply rcost_nonneg; exact Hpen); try (apply icost_nonneg; exact Hpen).
+  - rewrite middle_map, map_length. rewrite (all_some_l_length _ _ Ek), map_length, seq_length. reflexivity.
+  - apply Forall_forall. intros row Hrow. rewrite middle_map, map_length.
+    destruct (In_nth_error _ _ Hrow) as [r Er]. pose proof (all_some_l_nth _ _ _ _ Ek Er) as H1.
+    apply nth_error_map_seq in H1. destruct H1 as [_ H1]. symmetry in H1.
+    rewrite (all_some_l_length _ _ H1), map_length, seq_length. reflexivity.
+  - apply Forall_forall. intros row Hrow. apply Forall_forall. intros x Hx.
+    destruct (In_nth_error _ _ Hrow) as [r Er]. destruct (In_nth_error _ _ Hx) as [c Ec].
+    rewrite <- (nth_nth_error ks r row [] Er) in Ec.
+    destruct (ed_kids_entry cs ds p _ _ ks r c x Ek Ec) as (_ & _ & c0 & d0 & E1 & _ & E3).
+    rewrite Forall_forall in IH. apply (IH c0 (nth_error_In _ _ E1) d0 x E3).
+  - rewrite !middle_map, !map_length. intros Hm Hn x Hx Nd.
+    destruct (ed_kids_entry cs ds p _ _ ks _ _ x Ek Hx) as (_ & _ & c0 & d0 & E1 & E2 & E3).
+    rewrite (nth_map_lt (fun d => insert_cost d pen) (middle p q ds) _ dummy 0) by lia.
+    rewrite (nth_map_lt (fun c => remove_cost c pen) (middle p q cs) _ dummy 0) by lia.
+    rewrite !middle_nth by lia. rewrite remove_cost_eq, insert_cost_eq.
+    rewrite (nth_nth_error cs _ c0 dummy E1), (nth_nth_error ds _ d0 dummy E2).
+    pose proof (size_nonneg c0). pose proof (size_nonneg d0).
+    destruct (all_leaves cs && all_leaves ds) eqn:El; [|lia]. subst pen.
+    apply andb_true_iff in El. destruct El as [L1 L2].
+    destruct (all_leaves_nth cs (p + (length (middle p q cs) - 1)) L1 ltac:(lia)) as [x' Ex'].
+    destruct (all_leaves_nth ds (p + (length (middle p q ds) - 1)) L2 ltac:(lia)) as [y' Ey'].
+    rewrite (nth_nth_error cs _ c0 dummy E1) in Ex'. rewrite (nth_nth_error ds _ d0 dummy E2) in Ey'. subst c0 d0.
+    pose proof (leaf_pair_pos x' y' x E3 Nd). cbn [size]. lia.
+Qed.
